@@ -25,11 +25,17 @@ import (
 //     present operand of its own JSON type, numbers by value; a missing or mistyped operand
 //     never matches (== of two paths that are both absent is left to the specification);
 //     != is the complement,
-//   - for integral canonical documents both decodings are also put to jpv-spec.
+//   - for integral canonical documents both decodings are also put to jpv-spec,
+//   - the path is also PARSED ONCE and that one function is called on the float64 decoding,
+//     the json.Number decoding and on both decodings of a second document (the same
+//     document with other root values / other `a` fields, or an independent one), in a
+//     random order: every call must select what a fresh Retrieve selects on that document
+//     (nothing of an earlier document may survive in the parsed function).
 //
 // Mode "general" (1 case in 5): a generated document and a function-free path with at least
 // one filter (GenCase); retrieval from the float64 and from the json.Number decoding must
-// both fail or give the same values.
+// both fail or give the same values; one parsed function called on both decodings (in either
+// order, twice) must give what the fresh Retrieves give.
 
 type c10 struct{}
 
@@ -676,13 +682,27 @@ func c10Typed(r *Rng, i int) Record {
 	}
 	selClass, firstClass := "", ""
 	exercised := false
-	for mode := 0; mode < 2; mode++ {
-		doc, err := c10Decode(text, mode == 1)
+	// the documents: [0] float64, [1] json.Number decoding of the document; [2], [3] the same
+	// of a second document
+	text2 := c10SecondDoc(r, d, style)
+	rec.Info["second_document"] = text2
+	var docs [4]interface{}
+	var fresh [4]c09Sel
+	for k := 0; k < 4; k++ {
+		t := text
+		if k >= 2 {
+			t = text2
+		}
+		doc, err := c10Decode(t, k%2 == 1)
 		if err != nil {
 			rec.Viol, rec.Class = "harness: cannot decode the generated document: "+err.Error(), "harness"
 			return rec
 		}
-		dn := []string{"float64", "json.Number"}[mode]
+		docs[k] = doc
+	}
+	for mode := 0; mode < 4; mode++ {
+		doc := docs[mode]
+		dn := []string{"float64", "json.Number", "second document, float64", "second document, json.Number"}[mode]
 		ms, texts := c10Members(doc)
 		ctx := &c09Ctx{cfg: &cfg, parsed: map[string]Parsed{}, doc: doc, members: texts, memo: map[string]c09Sel{}}
 		out := ctx.outcome(ptext)
@@ -690,14 +710,19 @@ func c10Typed(r *Rng, i int) Record {
 		if ctx.viol != "" {
 			fail(ctx.cls, "[%s] %s", dn, ctx.viol)
 		}
-		sels[mode] = sel
+		fresh[mode] = sel
+		if mode < 2 {
+			sels[mode] = sel
+		}
 		// the statement, member by member
 		cnt := 0
 		for j, m := range ms {
 			want, met := c10Expect(q, doc, m)
-			tags["met:"+met] = true
-			if !strings.Contains(met, "missing") {
-				exercised = true
+			if mode < 2 {
+				tags["met:"+met] = true
+				if !strings.Contains(met, "missing") {
+					exercised = true
+				}
 			}
 			if sel[j] {
 				cnt++
@@ -707,11 +732,14 @@ func c10Typed(r *Rng, i int) Record {
 				if want == 1 {
 					verb = "must be selected"
 				}
-				fail("type-strict", "[%s] %s: member %d (%s) %s (operand types %s) but the library selects %s", dn, ptext, j, clip(JSONText(m), 80), verb, met, sel)
+				fail("type-strict", "[%s] %s: member %d (%s) %s (operand types %s) but the library selects %s on %s", dn, ptext, j, clip(JSONText(m), 80), verb, met, sel, clip(JSONText(doc), 600))
 			}
-			if want < 0 {
+			if want < 0 && mode < 2 {
 				tags["both-absent(spec decides)"] = true
 			}
+		}
+		if mode >= 2 {
+			continue
 		}
 		switch {
 		case cnt == 0:
@@ -727,6 +755,39 @@ func c10Typed(r *Rng, i int) Record {
 		if style == 0 && (viol == "" || cls == "type-strict") {
 			rec.Q = append(rec.Q, c10SpecQ(p, doc, out, "["+dn+"] comparison filter vs Spec.run"))
 		}
+	}
+	// one parsed function over all four documents
+	if f, _ := SafeParse(ptext, &cfg); f != nil {
+		order := []int{0, 1, 2, 3}
+		switch r.Intn(4) {
+		case 0:
+			order = []int{1, 0, 3, 2}
+		case 1:
+			r.Shuffle(4, func(i, j int) { order[i], order[j] = order[j], order[i] })
+		case 2:
+			order = []int{2, 0, 1, 3}
+		}
+		order = append(order, order[0])
+		rec.Info["parsed_once_order"] = fmt.Sprint(order)
+		names := []string{"the float64 decoding", "the json.Number decoding", "the float64 decoding of the second document", "the json.Number decoding of the second document"}
+		var seen []string
+		for _, k := range order {
+			_, texts := c10Members(docs[k])
+			ctx := &c09Ctx{cfg: &cfg, doc: docs[k], members: texts}
+			sel := ctx.selOf(ptext, SafeCall(f, docs[k]))
+			if ctx.viol != "" {
+				fail(ctx.cls, "[one parsed function, on %s] %s", names[k], ctx.viol)
+			}
+			if !c09Equal(sel, fresh[k]) {
+				prev := "first call"
+				if len(seen) > 0 {
+					prev = "after it was called on " + strings.Join(seen, ", then ")
+				}
+				fail("parsed-once", "%s parsed once and called on %s (%s) selects %s but a fresh Retrieve selects %s; document: %s; second document: %s", ptext, names[k], prev, sel, fresh[k], text, text2)
+			}
+			seen = append(seen, names[k])
+		}
+		tags["law:parsed-once=fresh"] = true
 	}
 	if !c09Equal(sels[0], sels[1]) {
 		fail("decode", "%s selects %s from the float64 decoding but %s from the json.Number decoding of %s", ptext, sels[0], sels[1], text)
@@ -752,6 +813,52 @@ func c10Typed(r *Rng, i int) Record {
 	}
 	sort.Strings(rec.Tags)
 	return rec
+}
+
+// c10SecondDoc: the JSON text of a second document for the same path: the same document with
+// other root values (also of another type) and some other `a` fields, or an independent one.
+func c10SecondDoc(r *Rng, d c10Doc, style int) string {
+	intsOnly := style == 0
+	class := func(c int) int {
+		if intsOnly && c == 1 {
+			return 0
+		}
+		return c
+	}
+	var root map[string]interface{}
+	if r.Chance(35) {
+		root = c10GenDoc(r, intsOnly).root
+	} else {
+		root = DeepCopy(d.root).(map[string]interface{})
+		for _, k := range []string{"n", "s", "t", "z", "o", "l"} {
+			switch {
+			case r.Chance(30):
+				// unchanged
+			case r.Chance(25):
+				root[k] = c10Val(r, class(r.Intn(7))) // any type
+			case r.Chance(8):
+				delete(root, k)
+			default:
+				c := map[string]int{"n": class(r.Intn(2)), "s": 2, "t": 3, "z": 4, "o": 6, "l": 5}[k]
+				root[k] = c10Val(r, c)
+			}
+		}
+		ms, _ := c10Members(root)
+		for _, m := range ms {
+			if mm, ok := m.(map[string]interface{}); ok && r.Chance(35) {
+				if _, has := mm["a"]; has || r.Chance(50) {
+					if r.Chance(12) {
+						delete(mm, "a")
+					} else {
+						mm["a"] = c10Val(r, class(r.Intn(7)))
+					}
+				}
+			}
+		}
+	}
+	var tb strings.Builder
+	c10JSON(&tb, root, r, style == 2)
+	return tb.String()
 }
 
 // c10OperandKey: the literal type, or the operand path with member positions blanked.
@@ -826,6 +933,33 @@ func c10General(r *Rng) Record {
 			rec.Viol, rec.Class = "abnormal outcome: "+clip(o.Detail(), 500), "abnormal"
 			return rec
 		}
+	}
+	// one parsed function on both decodings, in either order, twice
+	if f, _ := SafeParse(text, &cfg); f != nil {
+		ds := []interface{}{doc, jdoc}
+		fr := []Outcome{outF, outJ}
+		names := []string{"the float64 decoding", "the json.Number decoding"}
+		first := r.Intn(2)
+		prev := ""
+		for _, k := range []int{first, 1 - first, first, 1 - first} {
+			o := SafeCall(f, ds[k])
+			if c08Abnormal(o) {
+				rec.Viol, rec.Class = "abnormal outcome of the parsed function on "+names[k]+": "+clip(o.Detail(), 500), "abnormal"
+				return rec
+			}
+			if c05Canon(o) != c05Canon(fr[k]) {
+				rec.Viol = fmt.Sprintf("%s parsed once and called on %s%s gives %s but a fresh Retrieve gives %s", text, names[k], prev, c08Show(o), c08Show(fr[k]))
+				rec.Class = "parsed-once"
+				return rec
+			}
+			if prev == "" {
+				prev = " (after it was called on " + names[k]
+			} else {
+				prev = strings.TrimSuffix(prev, ")") + ", then on " + names[k]
+			}
+			prev += ")"
+		}
+		rec.Tags = append(rec.Tags, "law:parsed-once=fresh")
 	}
 	same := outF.OK == outJ.OK
 	if same && outF.OK {
